@@ -107,6 +107,10 @@ func (g *Graph) getTableBackedEdge(key string, load bool) *gripql.Edge {
 	table := parts[0]
 	id := parts[1]
 	edgeSchema := g.schema.GetEdge(table)
+	if edgeSchema == nil {
+		// not one of the mapped edge tables
+		return nil
+	}
 	gidField := edgeSchema.GidField
 	q := fmt.Sprintf("SELECT * FROM %s WHERE %s=%s", table, gidField, id)
 	data := make(map[string]interface{})
@@ -132,10 +136,16 @@ func (g *Graph) GetEdge(key string, load bool) *gdbi.Edge {
 		return nil
 	}
 	table := parts[0]
+	var e *gripql.Edge
 	if table == "generated" {
-		return gdbi.NewElementFromEdge(g.getGeneratedEdge(key, load))
+		e = g.getGeneratedEdge(key, load)
+	} else {
+		e = g.getTableBackedEdge(key, load)
 	}
-	return gdbi.NewElementFromEdge(g.getTableBackedEdge(key, load))
+	if e == nil {
+		return nil
+	}
+	return gdbi.NewElementFromEdge(e)
 }
 
 // GetVertexList produces a channel of all vertices in the graph
